@@ -366,3 +366,15 @@ M('regex-pwd-stops-at-slash', ['C15'], UTL, "re_sub_uri_user_and_pwd = re.compil
 M('regex-keeps-user', ['C15'], UTL, "re_sub_uri_user_and_pwd = re.compile(r'\\b ( [a-zA-Z][a-zA-Z0-9+\\-.]* :// ) [^:@]+: [^@]* ( @ [^\\s/?#]+ )', re.VERBOSE)", "re_sub_uri_user_and_pwd = re.compile(r'\\b ( [a-zA-Z][a-zA-Z0-9+\\-.]* :// [^:@]+: ) [^@]* ( @ [^\\s/?#]+ )', re.VERBOSE)", ['C15.R3'])
 M('regex-user-class-narrow', ['C15'], UTL, "re_sub_uri_user_and_pwd = re.compile(r'\\b ( [a-zA-Z][a-zA-Z0-9+\\-.]* :// ) [^:@]+: [^@]* ( @ [^\\s/?#]+ )', re.VERBOSE)", "re_sub_uri_user_and_pwd = re.compile(r'\\b ( [a-zA-Z][a-zA-Z0-9+\\-.]* :// ) [^:@!]+: [^@]* ( @ [^\\s/?#]+ )', re.VERBOSE)", ['C15.R3'])
 M('mask-replacement-keeps-all', ['C15'], UTL, "    return re_sub_uri_user_and_pwd.sub(r'\\g<1>****\\g<2>', text)", "    return re_sub_uri_user_and_pwd.sub(r'\\g<0>', text)", ['C15.R3'])
+
+# ------------------------------------------------------------------------------------------- later additions (zmq / mq)
+
+M('new_recv-aliases-template', ['C01'], Z, "                recvd = None if recvd_new is None else recvd_new.copy()", "                recvd = None if recvd_new is None else recvd_new", ['C01.R8'])
+M('new_recv-aliases-template-2', ['C01'], Z, "            else:\n                recvd = recvd_new.copy()\n\n            self.recvd = recvd", "            else:\n                recvd = recvd_new\n\n            self.recvd = recvd", ['C01.R8'])
+M('template-prefilled', ['C01'], Z, "                self.recvd_new = {src: None for src, _ in topics}", "                self.recvd_new = {src: False for src, _ in topics}", ['C01.R8'])
+M('send-returns-stale-id', ['C02'], Z, "        return ZMQStateRecv(self.min_send_id)  # ZMQState for ZMQReceiver\n\n\nclass ZMQReceiver:", "        return ZMQStateRecv(msg_id)  # ZMQState for ZMQReceiver\n\n\nclass ZMQReceiver:", ['C02.R7'])
+M('mq-send-state-not-cleared', ['C02', 'C03'], MQ, "        self.send_state = None  # in case we get another send() without a matching recv()", "        pass  # in case we get another send() without a matching recv()", ['C02.R7'])
+M('mq-recv-state-not-cleared', ['C02'], MQ, "        self.recv_state            = None  # we already used up this recv_state", "        pass  # we already used up this recv_state", ['C02.R7'])
+M('mq-recv-ignores-state', ['C02'], MQ, "self.receiver.recv(self.recv_state if self.mq_msgid_sync else None, timeout)", "self.receiver.recv(None, timeout)", ['C02.R7'])
+M('send_push-no-uid', ['C04'], Z, "                msg0['uid'] = self.unique_id\n", "", ['C04.R6'])
+M('clients-keyed-by-cid-only', ['C04'], Z, "                full_id   = client_id + env.get('uid', '')", "                full_id   = client_id", ['C04.R6'])
